@@ -8,6 +8,10 @@ Tie (b) trace: real gensquashfs / tar2sqfs runs under an LD_PRELOAD shim that lo
     system call; the extracted trace_okb is evaluated on the real trace (run-time check of the
     theorems' hypothesis), and the extracted `apply` of every trace prefix is compared with the file
     a packer killed at that point really leaves behind (md5).
+Tie (c) system-call level (session 3, props/C14/fine_stage.py): the logged calls of every real run must REFINE the
+    section-level trace of Image.FinishModel recomputed from the image (extracted trace_refinesb / coarse_of_image) and
+    every section but the data area must have been written with exactly the calls coq/C14/FineModel.v predicts; a
+    component harness (h_fine.c, toy compressor) compares the library's whole call sequence with the model's fine trace.
 Search: the kill sweep - for every input and every k the shim SIGKILLs the packer right before its
     k-th output call; rdsquashfs -l, rdsquashfs -d and sqfs2tar on the file left behind must each
     fail or produce exactly what they produce on the image of the uninterrupted run."""
@@ -18,6 +22,7 @@ import os
 import random
 import shutil
 import subprocess
+import sys
 import tarfile
 from concurrent.futures import ThreadPoolExecutor
 
@@ -25,6 +30,9 @@ from vlib import build as B
 from vlib import core
 
 HERE = os.path.dirname(os.path.abspath(__file__))
+if HERE not in sys.path:
+    sys.path.insert(0, HERE)
+import fine_stage  # noqa: E402  (props/C14/fine_stage.py: system-call level trace, refinement check, harness tie)
 LEVEL = "proof"
 
 NO_TABLE = (1 << 64) - 1
@@ -43,6 +51,15 @@ def build_all():
                              extra=["-shared", "-fPIC"], link_lib=False, libs=["-ldl", "-lpthread"])
     drv = core.build_model_driver("C14", "ExtractC14.v", os.path.join(HERE, "driver.ml"))
     return info, h, shim, drv
+
+
+def build_fine(info):
+    """harness + driver of the system-call level model (session 3); (None, None, why) if they no longer build"""
+    try:
+        hf, fdrv = fine_stage.build(B, core, info)
+        return hf, fdrv, None
+    except Exception as e:  # model / harness no longer builds against the current tree
+        return None, None, str(e)
 
 
 # ----------------------------------------------------------------------------------------------
@@ -472,6 +489,37 @@ def make_inputs(ctx, base):
                 uid=rnd.choice([0, 1, 2])) for i in range(14)]
     mem.append(dict(name="dupe", data=mem[3]["data"]))
     inputs.append(tar_input(rnd, base, "tar-jobs4-lz4-8k", 8192, "lz4", mem, jobs=4))
+    # J-N: the optional tables present / absent (fragment table x xattr tables x export table x compressor options).
+    # Without a fragment table the only readers' tests between the super block and the listing are the id table's; an
+    # input WITH xattrs and WITHOUT fragments is the one where a super block stored too early (before the xattr flush)
+    # can make an incomplete file readable (seeded/C14-5).
+    def nofrag_files(r, bs, n=2):
+        # nothing that ends up in a fragment: empty files and exact multiples of the block size
+        return [("nf/blk%d" % i, blob(r, bs * (1 + i % 2), "mixed")) for i in range(n)] + [("nf/empty", b"")]
+
+    xa_nf = ("# file: nf\nsecurity.selinux=\"system_u:object_r:etc_t:s0\"\n\n# file: nf/blk0\nuser.mime=\"application/x\"\n"
+             "user.sum=0x%s\n\n# file: dev_null\nuser.comment=\"a device\"\n" % bytes(rnd.getrandbits(8) for _ in range(8)).hex())
+    inputs.append(pack_input(rnd, base, "gen-xattr-nofrag-gzip-4k", 4096, "gzip", nofrag_files(rnd, 4096), special[:3], xattrs=xa_nf))
+    inputs.append(pack_input(rnd, base, "gen-bare-nofrag-noxattr-gzip", 4096, "gzip", nofrag_files(rnd, 4096, 1), special[:4]))
+    inputs.append(pack_input(rnd, base, "gen-exportonly-nofrag-lz4", 4096, "lz4", [], special[:5], extra_args=["-e"]))
+    inputs.append(pack_input(rnd, base, "gen-xattr-export-nofrag-xz", 8192, "xz", nofrag_files(rnd, 8192, 1), special[:2],
+                             extra_args=["-e"], xattrs=xa_nf))
+    mem = [dict(name="nf", type="dir", xattrs={"user.d": "dir"}),
+           dict(name="nf/blk", data=blob(rnd, 4096 * 2, "mixed"), xattrs={"user.a": "1", "security.selinux": "ctx"}),
+           dict(name="nf/empty", data=b"", xattrs={"user.a": "1"}),
+           dict(name="nf/sl", type="sym", target="blk"),
+           dict(name="fifo", type="fifo", xattrs={"user.f": "x" * 30})]
+    inputs.append(tar_input(rnd, base, "tar-xattr-nofrag-zstd-4k", 4096, "zstd", mem))
+    if ctx.tier == "thorough":
+        # all 16 combinations of the optional sections, gensquashfs, rotating compressors
+        for c in range(16):
+            frag, xat, exp, opt = c & 1, c & 2, c & 4, c & 8
+            r3 = random.Random(ctx.seed * 97 + c)
+            comp = ["lz4", "xz"][c % 2] if opt else ["gzip", "zstd", "lzma"][c % 3]
+            files = nofrag_files(r3, 4096, 1) + ([("fr/tail", blob(r3, 700, "text"))] if frag else [])
+            ea = (["-e"] if exp else []) + (["-X", "dictsize=8192"] if (opt and comp == "xz") else [])
+            inputs.append(pack_input(r3, base, "gen-opt%02d-%s" % (c, comp), 4096, comp, files, special[:3], extra_args=ea,
+                                     xattrs=(xa_nf if xat else None)))
     if ctx.tier == "thorough":
         # every compressor x several block sizes x both tools, random trees
         for i in range(120):
@@ -541,7 +589,7 @@ class Full:
     pass
 
 
-def full_run(ctx, info, shim, drv, inp, base):
+def full_run(ctx, info, shim, drv, inp, base, fdrv=None):
     """uninterrupted run under the logging shim + model evaluation of the trace"""
     d = os.path.join(base, inp.name)
     os.makedirs(d, exist_ok=True)
@@ -589,6 +637,8 @@ def full_run(ctx, info, shim, drv, inp, base):
             f.model["ks"][int(p[1])] = dict(accepts=p[2] == "1", size=int(p[3], 16), md5=p[4], image_md5=p[5])
     f.n = f.model["n"]
     f.final_md5, f.final_size = md5_file(f.img)
+    # the logged calls as a refinement of the section-level trace recomputed from the image (coq/C14/SectionModel.v)
+    f.fine = fine_stage.real_check(fdrv, f.log, f.img, preexec=big_stack) if fdrv else None
     return f
 
 
@@ -619,7 +669,13 @@ def kill_point(info, shim, f, k):
 
 def run(ctx):
     info, h, shim, drv = build_all()
+    hf, fdrv, fine_err = build_fine(info)
+    ctx.log("implementation, harnesses, shim and both model drivers built")
     ctx.trusted += [
+        "props/C14/fine_driver.ml (log / image / model-input parsing, search for the segment lengths handed to the extracted "
+        "trace_refinesb as an untrusted certificate), props/C14/h_fine.c (= props/C03/h_image.c writing to a path the shim "
+        "watches; real sqfs_writer_init / block processor / sqfs_writer_finish, toy compressor through -Wl,--wrap), "
+        "props/C14/fine_stage.py",
         "props/C14/h_super.c, props/C14/driver.ml (hex I/O glue, md5 of the model's file)",
         "props/C14/shim_io.c: LD_PRELOAD wrapper of pwrite/pwrite64/write/ftruncate/ftruncate64 (+ recording of "
         "writev/pwritev/fallocate/copy_file_range) on the output file; the logged calls are taken to be all output calls",
@@ -642,6 +698,16 @@ def run(ctx):
         ctx.seed = int(replay.get("seed", ctx.seed))
         ctx.tier = replay.get("tier", ctx.tier)
 
+    # ---- system-call level model vs the library (harness, toy compressor): started now, evaluated below ----
+    fine_cases = []
+    if hf and fdrv:
+        if replay and replay.get("kind") == "fine-harness":
+            fine_cases = [("replay", l) for l in replay.get("lines", [])]
+        elif not replay:
+            fine_cases = fine_stage.gen_cases(ctx.seed, ctx.tier)
+    fine_pool = ThreadPoolExecutor(max_workers=1)
+    fine_future = fine_pool.submit(fine_stage.harness_tie, ctx.scratch, shim, hf, fdrv, fine_cases, big_stack) if fine_cases else None
+
     # ---- tie (a) ----
     if replay and replay.get("kind") == "component":
         cases = [(l[0], bool(l[1])) if isinstance(l, list) else (l, False) for l in replay.get("lines", [])]
@@ -649,6 +715,8 @@ def run(ctx):
         cases = []
     else:
         cases = gen_component_cases(ctx)
+    if replay and replay.get("kind") == "fine-harness":
+        cases = []
     comp_bad, comp_stats = [], {}
     if cases:
         comp_bad, comp_stats, outs = component_tie(ctx, h, drv, cases)
@@ -660,7 +728,7 @@ def run(ctx):
     # ---- tie (b) + search ----
     base = os.path.join(ctx.scratch, "sweep")
     os.makedirs(base, exist_ok=True)
-    if replay and replay.get("kind") == "component":
+    if replay and replay.get("kind") in ("component", "fine-harness"):
         inputs = []
     else:
         inputs = make_inputs(ctx, base)
@@ -668,7 +736,7 @@ def run(ctx):
             inputs = [i for i in inputs if i.name == replay["input"]]
     fulls = []
     with ThreadPoolExecutor(max_workers=8) as ex:
-        fulls = list(ex.map(lambda i: full_run(ctx, info, shim, drv, i, base), inputs))
+        fulls = list(ex.map(lambda i: full_run(ctx, info, shim, drv, i, base, fdrv), inputs))
     jobs = []
     shape_bad, apply_bad = [], []
     traces_ok = 0
@@ -772,6 +840,80 @@ def run(ctx):
                       dict(kind="kill", input=f.inp.name, recipe=f.inp.recipe, args=f.inp.args,
                            correspondence="extracted trace_okb on the logged trace (hypothesis of crash_prefix_rejected / after_commit_complete)",
                            trace_head=open(f.log).read()[:3000] if os.path.exists(f.log) else ""), no_input=True)
+    # ---- system-call level: refinement of the section trace (real runs) and exact call sequence (harness) ----
+    fine_stat = dict(real_runs=0, real_refine_ok=0, sections_exact=0, sections_predicted=0, data_calls=0, truncations=0,
+                     harness_cases=0, harness_exact=0, harness_calls=0, harness_truncations=0, harness_refused=0)
+    if fine_err:
+        ctx.violation("fine-model-build-failed",
+                      "the system-call level model (coq/C14/Fine*.v, SectionModel.v) or its harness no longer builds against the "
+                      "current tree: %s; kill sweep found %d concrete failures" % (fine_err[-500:], concrete),
+                      dict(kind="proof obligation / model build", detail=fine_err[-3000:]), no_input=True)
+    fine_bad = []
+    for f in fulls:
+        d = getattr(f, "fine", None)
+        if f.rc != 0 or d is None:
+            continue
+        fine_stat["real_runs"] += 1
+        ex = (d.get("exact") or "0/0").split("/")
+        fine_stat["sections_exact"] += int(ex[0]) if ex[0].isdigit() else 0
+        fine_stat["sections_predicted"] += int(ex[1]) if len(ex) > 1 and ex[1].isdigit() else 0
+        fine_stat["data_calls"] += int(d.get("data", 0) or 0)
+        fine_stat["truncations"] += int(d.get("trunc", 0) or 0)
+        if fine_stage.real_ok(d):
+            fine_stat["real_refine_ok"] += 1
+        else:
+            fine_bad.append((f, d))
+    for f, d in fine_bad[:2]:
+        refines = d.get("refines") == "1" and d.get("okc") == "1"
+        ctx.violation("%s:%s" % ("fine-calls" if refines else "trace-refine", f.inp.tool),
+                      "the output calls of a real %s run (input %s, %d calls) %s: %s; kill sweep found %d concrete failures"
+                      % (f.inp.tool, f.inp.name, f.n,
+                         ("refine the section-level trace but the image's sections are not laid out as the model lays them out "
+                          "(blocks followed by the location list that names their starts)" if d.get("wf") == "0" else
+                          "refine the section-level trace but a section was not written with the calls the fine model predicts")
+                         if refines else
+                         "do not refine the section-level trace recomputed from the image (hypothesis of refinement_preserves_shape "
+                         "/ writer_fine_trace_ok's conclusion does not hold of the run)",
+                         {k: v for k, v in d.items() if k != "stderr"}, concrete),
+                      dict(kind="kill", input=f.inp.name, recipe=f.inp.recipe, args=f.inp.args, fine=d,
+                           correspondence="extracted trace_refinesb (logged calls) (coarse_of_image image) + predicted_calls",
+                           trace_head=open(f.log).read()[:3000] if os.path.exists(f.log) else ""), no_input=True)
+    if fine_future is not None:
+        try:
+            hres, herr = fine_future.result()
+        except Exception as e:  # noqa: BLE001
+            hres, herr = [], "harness stage raised %r" % (e,)
+        if herr:
+            ctx.violation("fine-harness:machinery", "system-call level harness tie could not run: %s" % herr,
+                          dict(kind="fine-harness", lines=[l for _, l in fine_cases][:2], detail=herr), no_input=True)
+        hbad = []
+        for d in hres:
+            fine_stat["harness_cases"] += 1
+            fine_stat["harness_calls"] += d.get("calls", 0)
+            fine_stat["harness_truncations"] += int(d.get("trunc", 0) or 0)
+            if d.get("rc") != "0":
+                fine_stat["harness_refused"] += 1
+            if fine_stage.harness_ok(d):
+                fine_stat["harness_exact"] += 1 if d.get("rc") == "0" else 0
+            else:
+                hbad.append(d)
+        seen_h = set()
+        for d in hbad:
+            part = ("suffix" if d.get("suf") == "0" else "prefix" if d.get("pre") == "0" else
+                    "data-keeps" if d.get("keeps") == "0" else "data-apply" if d.get("apply") == "0" else "rc")
+            if part in seen_h:
+                continue
+            seen_h.add(part)
+            ctx.violation("fine-harness:" + part,
+                          "the call sequence of the library (sqfs_writer_init / block processor / sqfs_writer_finish, toy compressor, "
+                          "case %s, %d calls) differs from the fine trace of the model (%s): %s; kill sweep found %d concrete failures"
+                          % (d.get("label"), d.get("calls", 0), part, {k: v for k, v in d.items() if k not in ("line",)}, concrete),
+                          dict(kind="fine-harness", lines=[d.get("line")], detail={k: v for k, v in d.items() if k != "line"},
+                               correspondence="props/C14/h_fine.c under shim_io.c vs extracted write_image + fine_trace"),
+                          no_input=True)
+    fine_pool.shutdown(wait=True)
+    ctx.log("fine traces: %s" % fine_stat)
+
     for f, k, why in apply_bad[:2]:
         ctx.violation("apply-tie:%s" % f.inp.tool,
                       "model of the output file disagrees with the file on disk (input %s): %s" % (f.inp.name, why),
@@ -811,13 +953,20 @@ def run(ctx):
                          "one write_at (each is its own crash point and its own trace event)" % short)
 
     # ---- thorough: independent re-check of the compiled proofs ----
+    # (vlib.core.prepare_proofs already runs coqchk on Properties_C14 in the thorough tier; the closure contains the Image /
+    #  Img / C01 / C03 developments since session 3 and takes a long time to re-check: do not run it twice)
     if ctx.tier == "thorough" and not replay:
-        rc, out = core.sh(["timeout", "900", "coqchk", "-silent", "-o", "-Q", ".", "SqfsV", "SqfsV.Properties_C14"], cwd=core.COQ)
-        okchk = rc == 0 and "Axioms: <none>" in out
-        ctx.coverage["coqchk"] = "ok, no axioms" if okchk else "FAILED rc=%d" % rc
-        if not okchk:
-            ctx.violation("coqchk", "coqchk does not accept Properties_C14.vo: " + out[-600:],
-                          dict(kind="proof", detail=out[-3000:]), no_input=True)
+        prev = ctx.coverage.get("coqchk")
+        if isinstance(prev, dict) and "rc" in prev:
+            okchk = prev["rc"] == 0
+            ctx.coverage["coqchk_c14"] = "ok (run by prepare_proofs, %.0f s)" % prev.get("wall_s", 0) if okchk else "FAILED rc=%s" % prev["rc"]
+        else:
+            rc, out = core.sh(["timeout", "3000", "coqchk", "-silent", "-o", "-Q", ".", "SqfsV", "SqfsV.Properties_C14"], cwd=core.COQ)
+            okchk = rc == 0 and "Axioms: <none>" in out
+            ctx.coverage["coqchk"] = "ok, no axioms" if okchk else "FAILED rc=%d" % rc
+            if not okchk:
+                ctx.violation("coqchk", "coqchk does not accept Properties_C14.vo: " + out[-600:],
+                              dict(kind="proof", detail=out[-3000:]), no_input=True)
 
     ctx.coverage["evaluations"] = len(cases) + stat["kill_points"]
     ctx.coverage["distinct_nontrivial"] = (comp_stats.get("init_ok", 0) + comp_stats.get("read_ok", 0) + stat["kill_points"])
@@ -829,9 +978,15 @@ def run(ctx):
         "id_table_start x bytes_used grid, provisional superblocks with one lock opened at a time, short files 0..97 bytes, "
         "seeded random byte damage (seed %d). kill sweep: for each of %d real packer inputs (gensquashfs pack-file/xattr-file, "
         "tar2sqfs; 5 compressors; duplicates, sparse, fragments, xattrs, export table, many inodes, empty tree, pre-existing "
-        "output, 4 workers) EVERY k in 0..n output calls; non-trivial = case reached past the refusing test / is a kill point"
-        % (ctx.seed, len(fulls)))
-    ctx.coverage["distribution"] = dict(component=comp_stats, sweep=stat, inputs=per_input)
+        "output, 4 workers) EVERY k in 0..n output calls; non-trivial = case reached past the refusing test / is a kill point. "
+        "system-call level: on each of these runs the logged calls must refine (extracted trace_refinesb) the section trace "
+        "recomputed from the image and write every predicted section with exactly the predicted calls; %d harness cases "
+        "(toy compressors x block sizes x export / xattr / options, duplicates -> truncations, multi-block inode / directory / "
+        "xattr tables, empty tree) compare the library's call sequence with the model's fine trace exactly"
+        % (ctx.seed, len(fulls), fine_stat["harness_cases"]))
+    ctx.coverage["distribution"] = dict(component=comp_stats, sweep=stat, inputs=per_input, fine=fine_stat)
+    ctx.coverage["evaluations"] += fine_stat["real_runs"] + fine_stat["harness_cases"]
+    ctx.coverage["distinct_nontrivial"] += fine_stat["real_refine_ok"] + fine_stat["harness_exact"]
     ctx.notes.append("readers and a missing pad: at %d of %d kill points between the commit and the end of the padding write "
                      "all three readers decoded the complete tree (no reader of this code base tests the padding)"
                      % (stat["unpadded_accepted"], stat["unpadded_points"]))
@@ -843,4 +998,5 @@ def run(ctx):
 
 
 def setup():
-    build_all()
+    info = build_all()[0]
+    build_fine(info)
